@@ -40,6 +40,8 @@ for log in sys.argv[1:]:
         if m: res[cur]["verdict"] = m.group(2); res[cur]["tier"] = m.group(1)
 for d, r in sorted(res.items()):
     sid = os.path.basename(d)
+    if "/out2/" in d:   # second round of seeding
+        sid = sid.replace("-", "-w2-")
     dst = os.path.join(V, "seeded", sid)
     os.makedirs(dst, exist_ok=True)
     for f in os.listdir(d):
